@@ -163,6 +163,16 @@ def _run_hist(desc):
                     want_sc, want_fc = sc[::-1].copy(), fc[::-1].copy()
                 xyz, tth, eta, ds, g = reference(tr, want_p, want_sc, want_fc, om)
                 want = dict(zip(names, (xyz[0], xyz[1], xyz[2], tth, eta, ds, g[0], g[1], g[2])))
+                if variant == "pars_then_pars" and fast:
+                    # the same history on ONE Ctransform object: parameters replaced, reset(), used again
+                    C = tr.Ctransform(PA)
+                    C.sf2xyz(sc, fc)
+                    C.pars.update({k_: PB[k_] for k_ in C.pnames})
+                    C.reset()
+                    geo = C.xyz2geometry(C.sf2xyz(sc, fc), om, PB["t_x"], PB["t_y"], PB["t_z"])
+                    if not (np.abs(geo[:, 3:6].T - g).max() <= 1e-12 and np.abs(geo[:, 0] - tth).max() <= 1e-9):
+                        sh.violation("Ctransform[history:pars replaced, reset()]", {"kind": "hist", "mag": mg, "config_a": ia, "config_b": ib, "variant": "Ctransform.reset",
+                                                                                 "fast": True}, {"max_g_diff": float(np.abs(geo[:, 3:6].T - g).max())})
                 case = {"kind": "hist", "mag": mg, "config_a": ia, "config_b": ib, "variant": variant, "fast": fast}
                 for nm in names:
                     if not cmp(sh, "columnfile.updateGeometry[history:%s,%s]:%s" % (variant, "fast" if fast else "slow", nm), case, cf.getcolumn(nm), want[nm],
